@@ -2,7 +2,8 @@
 import copy
 
 import proto
-from common import Failure, Outcome, Broken
+from common import Failure, Outcome, Broken, capped
+import stores
 from gen import pick, mutate_value, gen_str
 from genrules import gen_inquiry
 import polcase
@@ -78,6 +79,13 @@ def plant_regex_ctx(rng, case):
             p['context'] = [c for c in p['context'] if c[0] != 'n'] + [('n', ('regex', pick(rng, ['^%d$' % v, '%d$' % v, r'\d+$'])))]
 
 
+def _state(st, skind, qobj):
+    if skind == 'memory':
+        return (canon([vars(o) for o in st.policies.values()]), canon(vars(qobj)), list(st.policies))
+    pols = sorted(capped(st.retrieve_all()), key=lambda p: repr(p.uid))
+    return ([polcase.policy_key(p) for p in pols], canon(vars(qobj)))
+
+
 def fresh_answer(case, inq_abs, cache):
     objs, _ = polcase.build_case(case)
     st = MemoryStorage()
@@ -103,9 +111,24 @@ def run(ctx):
             continue
         k = case['k']
         cap = pick(rng, [None, 0, 1, 2, 1024])
+        # the guard under test mostly sits on the in-memory store; in a fifth of the histories on another backend
+        # (a search must leave nothing behind in the storage object either)
+        skind = 'memory'
         st = MemoryStorage()
-        for o in objs:
-            st.add(o)
+        # (policies with custom tag characters lose their class through those backends: outside their domain)
+        if rng.random() < 0.25 and all(p.get('stag', '<') == '<' and p.get('etag', '>') == '>' for p in case['policies']):
+            skind = pick(rng, ['sqlite', 'mongo', 'mongo40', 'redis-json'])
+            try:
+                alt = stores.make_base(skind)
+                for o in objs:
+                    alt.add(copy.deepcopy(o))
+                st = alt
+            except Exception:
+                skind, st = 'memory', MemoryStorage()     # a malformed element the backend refuses: stay in memory
+        if skind == 'memory':
+            for o in objs:
+                st.add(o)
+        out.count('storage:' + skind)
         guard = Guard(st, polcase.make_checker(k, (cap,)))
         pool = inquiry_pool(rng, case['inquiry'])
         seq = [pick(rng, pool) for _ in range(rng.randint(2, 30))]
@@ -116,13 +139,13 @@ def run(ctx):
                 qobj = proto.build_inquiry(qa)
             except Exception:
                 continue
-            before = (canon([vars(o) for o in st.policies.values()]), canon(vars(qobj)), list(st.policies))
+            before = _state(st, skind, qobj)
             a = guard.is_allowed(qobj)
-            after = (canon([vars(o) for o in st.policies.values()]), canon(vars(qobj)), list(st.policies))
+            after = _state(st, skind, qobj)
             f0 = fresh_answer(case, qa, None)
             hist.append((repr(qa), a))
             out.evaluations += 1
-            desc = {'checker': k, 'cache': cap, 'policies': [repr(p) for p in case['policies']],
+            desc = {'checker': k, 'cache': cap, 'storage': skind, 'policies': [repr(p) for p in case['policies']],
                     'history': [h[0] for h in hist], 'answers': [h[1] for h in hist]}
             if a is not f0:
                 f = Failure('oracle', desc, a, None, 'a fresh guard over a fresh copy, asked only this inquiry, says %s' % f0,
